@@ -55,7 +55,24 @@ func ruleC18(w *World, r *Report) {
 		}
 	})
 	if confCell == nil {
-		brokenf(P, "R18.1", "conf variable not found in LoadConfigFile")
+		// where does the decoder write to?
+		target := ""
+		allInstrs(load, func(i ssa.Instruction) {
+			if c, ok := i.(*ssa.Call); ok && calleeName(c) == "encoding/json.Unmarshal" && len(c.Call.Args) == 2 {
+				target = symOf(c.Call.Args[1]).String()
+				if mi, ok := c.Call.Args[1].(*ssa.MakeInterface); ok {
+					target = valueText(mi.X)
+					if g, isG := mi.X.(*ssa.Global); isG {
+						target = "the package variable " + g.Name()
+					}
+				}
+			}
+		})
+		if target == "" {
+			brokenf(P, "R18.1", "conf variable not found in LoadConfigFile")
+		}
+		r.bad("R18.1", ln, "every load starts from a configuration of its own", w.Pos(load.Pos()), "the file is decoded into "+target+", storage that outlives the call: a second load (and a load after a rejected one) inherits what earlier documents set — documented defaults and a missing mode are not what the file says any more")
+		return
 	}
 	vcalls := callsTo(load, val)
 	if len(vcalls) != 1 {
